@@ -433,7 +433,7 @@ def render_chain(desc):
     return kparts, sparts, aparts, ksrc, ssrc, asrc, item_ty, flags
 
 
-def render_fns(i, desc):
+def render_fns(i, desc, std_only=False):
     kparts, sparts, aparts, ksrc, ssrc, asrc, item_ty, flags = render_chain(desc)
     c = desc["consumer"]
     cm = c["m"]
@@ -502,6 +502,8 @@ def render_fns(i, desc):
         return "argc(); let r = { %s }; format!(\"{} #argument evaluations: {}\", r, argc())" % body
 
     src = []
+    if std_only:
+        kbody = sbody  # the twin: is the chain itself well-typed?
     src.append("fn k_%d(inp: &Inp) -> String { %s }" % (i, counted(kbody)))
     src.append("fn s_%d(inp: &Inp) -> String { %s }" % (i, counted(sbody)))
     src.append("fn a_%d(inp: &Inp) -> String { %s }" % (i, counted(abody)))
@@ -509,10 +511,10 @@ def render_fns(i, desc):
     return "\n".join(src), flags
 
 
-def render_program(descs):
+def render_program(descs, std_only=False):
     fns, table, flags_all = [], [], []
     for i, d in enumerate(descs):
-        f, flags = render_fns(i, d)
+        f, flags = render_fns(i, d, std_only)
         fns.append("// %s\n%s" % (json.dumps(d, sort_keys=True), f))
         flags_all.append(flags)
         table.append("Chain { id: %d, uses: %d, has_alt: %s, has_t: %s, k: k_%d, s: s_%d, a: a_%d, t: t_%d }," %
@@ -790,6 +792,34 @@ def run_batch(name, descs, tier, timeout):
     return parse_output(out), out, flags
 
 
+def rejected_chains(descs, limit=3):
+    """The batch does not build: which chains does konst's macro reject although the identical std chain compiles?
+    Returns (list of (desc, compiler message), None) or (None, reason) when a chain's std twin does not compile either
+    (generator error)."""
+    import re
+    bad, stack = [], [list(range(len(descs)))]
+    while stack and len(bad) < limit:
+        idx = stack.pop()
+        src, _ = render_program([descs[i] for i in idx])
+        driver.write_bin("c10_bis", src)
+        ok, out = driver.build_bin("c10_bis")
+        if ok:
+            continue
+        if len(idx) == 1:
+            src2, _ = render_program([descs[idx[0]]], std_only=True)
+            driver.write_bin("c10_bis", src2)
+            ok2, out2 = driver.build_bin("c10_bis")
+            if not ok2:
+                return None, "std twin of %s does not compile:\n%s" % (json.dumps(descs[idx[0]]), out2[-2500:])
+            msg = " | ".join(re.findall(r"error(?:\[E\d+\])?: .*", out)[:3])
+            bad.append((descs[idx[0]], msg))
+        else:
+            h = len(idx) // 2
+            stack.append(idx[h:])
+            stack.append(idx[:h])
+    return bad, None
+
+
 def classify(desc, flags, chain_stats, fails, alts, known_sigs):
     """returns (violations list, known_hits, documented_hits)"""
     v = list(fails)
@@ -871,6 +901,15 @@ def run(prop, tier, seed, out, timeout, **kw):
     violations = []
     for name, descs in batches:
         res, outp, flags = run_batch(name, descs, tier, timeout)
+        if res is None and "could not compile" in outp:
+            # a chain that is valid on std iterators (the generator tracks types) but rejected by konst's macro
+            bad, why = rejected_chains(descs)
+            if bad is None or not bad:
+                return 2, "[gen_chain] batch %s failed to build (%s):\n%s" % (name, why or "no single chain fails", outp[-4000:])
+            for d, msg in bad:
+                violations.append((d, ["FAIL the chain compiles on std iterators but konst's macro rejects it: " + msg[:400]]))
+            programs += len(descs)
+            continue
         if res is None:
             return 2, "[gen_chain] batch %s failed to build/run:\n%s" % (name, outp[-5000:])
         chains, fails, alts, total = res
@@ -901,14 +940,21 @@ def run(prop, tier, seed, out, timeout, **kw):
     driver.write_bin("c10_const", render_const_program(pairs))
     ok, outp = driver.build_bin("c10_const")
     if not ok:
-        return 2, "[gen_chain] collect_const! batch failed to build (every program is supposed to be valid):\n" + outp[-5000:]
-    rc, outp, dt = driver.run_bin("c10_const", timeout=timeout)
-    if rc != 0:
-        return 2, "[gen_chain] const batch run failed:\n" + outp[-3000:]
-    for line in outp.splitlines():
-        if line.startswith("FAIL "):
-            i = int(line.split()[1])
-            violations.append(({"const_chain": pairs[i][0], "std": pairs[i][1]}, [line]))
+        # which items cannot be evaluated / are rejected although their std twin compiles (shared with the C11 engine)
+        import gen_collect
+        vs, problem = gen_collect.judge_build_failure([("i32", k, s_, "") for k, s_ in pairs], timeout, outp)
+        if problem:
+            return 2, "[gen_chain] collect_const! batch failed to build:\n" + problem
+        for it, why in vs:
+            violations.append(({"const_chain": it[1], "std": it[2]}, ["FAIL " + why]))
+    else:
+        rc, outp, dt = driver.run_bin("c10_const", timeout=timeout)
+        if rc != 0:
+            return 2, "[gen_chain] const batch run failed:\n" + outp[-3000:]
+        for line in outp.splitlines():
+            if line.startswith("FAIL "):
+                i = int(line.split()[1])
+                violations.append(({"const_chain": pairs[i][0], "std": pairs[i][1]}, [line]))
     evaluations += len(pairs)
     programs += len(pairs)
     labels["collect_const_programs"] = len(pairs)
